@@ -51,6 +51,7 @@ func runC12(c *core.Ctx) {
 	// …and must not be edited in place (it shares its node map with the latest configuration)
 	h.oneActionPerEntry("C12.5c one-action")
 	h.applyInOrder("C12.2b applied-position")
+	h.singleApplier("C12.2c single-applier")
 	h.snapshotFallback("C12.6 snapshot-fallback")
 }
 
@@ -87,4 +88,6 @@ func runC10(c *core.Ctx) {
 	h.dirListingLiteral("C10.10 dir-listing")
 	c.Clause("C10.11 the storage lock does not outlive the process that took it")
 	h.lockReleasedByDeath("C10.11 lock-released-by-death")
+	// the term a snapshot records for its index is the state machine's: it advances with the index
+	h.applyInOrder("C10.12 applied-position")
 }
